@@ -93,10 +93,12 @@ func Random(r *rand.Rand, name string, o Opts) *Project {
 	c.StartYear = between(r, o.StartYearMin, o.StartYearMax)
 	c.DivideCentury = 50
 	if c.DateFormat == 0 || c.DateFormat == 2 {
-		// two digit years: keep the whole run inside the unambiguous window
-		c.DivideCentury = (c.StartYear - 5) % 100
-		if c.StartYear-5 < 1901 {
-			c.DivideCentury = 1
+		// two digit years (yy >= 50 -> 19yy, yy < 50 -> 20yy): keep the whole run inside the unambiguous window
+		if c.StartYear < 1952 {
+			c.StartYear = 1952
+		}
+		if c.StartYear > 2040 {
+			c.StartYear = 2040
 		}
 	}
 	c.GWFrom = pick(r, o.GWFrom)
